@@ -35,16 +35,17 @@ def library_programs():
 
 def body_programs():
     """hand-written verilogBody() methods next to a Python clock(): compared with the same machinery (clause of C01)"""
-    return [('lib2', 'MsgSequencer', 'clock')] + [('lib', 'SynchronousMemory@%d' % k, 'clock') for k in (0, 3, 8, 13)]
+    return [('lib2', 'MsgSequencer', 'clock')] + [('lib2', 'MsgSequencer:' + m_, 'clock') for m_ in ('ab', 'abc', 'abcd', 'abcde', 'abcdefghi', 'abcdefghijklmnopq')] + [('lib', 'SynchronousMemory@%d' % k, 'clock') for k in (0, 3, 8, 13)]
 
 
 def _make_lib2(name):
     import py4hw
     import py4hw.emulation.vitiswrapping as VW
     s = _q(py4hw.HWSystem); w = s.wire
-    if name == 'MsgSequencer':
+    if name.startswith('MsgSequencer'):
         import py4hw.logic.protocol.uart.sequencer as SQ
-        return _q(SQ.MsgSequencer, s, 'u', w('ready'), w('valid'), w('v', 8), 'Hello!\n')
+        # message lengths 2, 3, 4, 5, 9, 17 besides the default: the counter width is derived from the length
+        return _q(SQ.MsgSequencer, s, 'u', w('ready'), w('valid'), w('v', 8), name.partition(':')[2] or 'Hello!\n')
     if name == 'Axi2ClkFSM':
         return _q(VW.Axi2ClkFSM, s, 'u', w('active_handshake'), w('clk_target', 16), w('reset_clk_count'), w('clk_count', 16), w('clk_out'), w('load_outs'))
     return _q(VW.VitisKernelFSM, s, 'u', w('ap_start'), w('ap_reset'), w('ap_done'), w('ap_idle'), w('ap_ready'), w('load_outs'), w('all_sent'))
@@ -72,7 +73,7 @@ def build(kind, name, meth):
         sys_, obj = L.make_instance(c, cfg)
         return obj, os.path.join(L.REPO, c.file), name, meth
     if kind == 'lib2':
-        return _make_lib2(name), os.path.join(L.REPO, 'py4hw/logic/protocol/uart/sequencer.py' if name == 'MsgSequencer' else 'py4hw/emulation/vitiswrapping.py'), name, meth
+        return _make_lib2(name), os.path.join(L.REPO, 'py4hw/logic/protocol/uart/sequencer.py' if name.startswith('MsgSequencer') else 'py4hw/emulation/vitiswrapping.py'), name.partition(':')[0], meth
     mod, path = _load_corpus(name, meth)
     import py4hw
     s = _q(py4hw.HWSystem)
